@@ -268,7 +268,7 @@ class Ctx:
         """a symbolic Int in [0,n) resolved to a concrete python int by forking"""
         v = self.int(name, 0, n - 1)
         if isinstance(v, Sym):
-            return core.ENGINE.concretize(v.t, what=name)
+            return core.ENGINE.concretize(v.t, what=name, candidates=list(range(n)))
         return int(v)
 
     def choose_bool(self, name):
@@ -662,7 +662,7 @@ def run_unit(prop_id, unit, tier, seed=0):
             continue
         ctx = pr.ret
         res["completed_paths"] += 1
-        nontrivial_path = any(not f for d, f, v in pr.prefix)
+        nontrivial_path = any(f is not True for d, f, v in pr.prefix)
         obs = ctx.obligations
         res["obligations"] += len(obs)
         if not obs:
